@@ -254,6 +254,7 @@ def run_program(prog, st=None):
                 slots[it[1]] = (it[2], make_cm(it[2]))
 
     slots = {}
+    active = []
 
     def run_block(b):
         if b[0] == "enter":
@@ -261,6 +262,11 @@ def run_program(prog, st=None):
             if slot not in slots:
                 slots[slot] = ("adjoint", make_cm("adjoint"))
             name, cm = slots[slot]
+            if name == "adjoint" and any(a is cm for a in active):
+                # a tape that is active right now is not re-entrant (entering resets its tape and its enclosing
+                # interpretation): only entering it again after it was left is part of the domain
+                cm = make_cm("adjoint")
+                slots[slot] = (name, cm)
             info["reentered"] = info.get("reentered", False) or (slot, "used") in slots
             slots[(slot, "used")] = True
             if name == "memoize":
@@ -301,6 +307,7 @@ def run_program(prog, st=None):
                     raise Violation("layer-over-the-wrong-interpretation", f"inside memoize: it wraps {getattr(top, 'base_interpretation', None)!r}, active at entry was {before!r}")
             run_items(items)
 
+        active.append(cm)
         try:
             if mode == "with":
                 with cm:
@@ -323,6 +330,7 @@ def run_program(prog, st=None):
                 raise Violation("stack-changed-by-refused-enter", "")
             raise Injected()
         finally:
+            active.pop()
             del model.stack[mdepth:]
             import sys
 
